@@ -225,7 +225,9 @@ def run_group(sc, feat, checks, obs, jobs):
     # batch by timeout so --harness-timeout fits
     by_to = {}
     for ob in obs:
-        by_to.setdefault(ob["timeout"], []).append(ob)
+        # few time-out classes, so that one cargo-kani invocation serves many harnesses
+        cls = next((b for b in (300, 900, 2400, 7200) if ob["timeout"] <= b), 14400)
+        by_to.setdefault(cls, []).append(ob)
     outdir = os.path.join(sc.dir, "kt-" + feat, "result_output_dir")
     for to, group in sorted(by_to.items()):
         names = [ob["name"] for ob in group]
@@ -288,6 +290,43 @@ def native_run(sc, name, inputs):
         return {"status": "native-error", "stdout": p.stdout[-500:], "stderr": p.stderr[-500:], "failures": []}
 
 
+STD_CFG_ALLOW = {
+    ("src/arithmetic.rs", '#[cfg(all(feature = "std", not(all(windows, target_env = "gnu"))))]'),
+    ("src/arithmetic.rs", '#[cfg(not(all(feature = "std", not(all(windows, target_env = "gnu")))))]'),
+    ("src/lib.rs", '#![cfg_attr(not(feature = "std"), no_std)]'),
+    ("src/lib.rs", '#[cfg(feature = "std")]'),
+}
+
+
+def scan_std_cfg(crate):
+    """C11 inventory: the only std/target-dependent items outside test modules are the two `fma`
+    definitions, the no_std switch and the std::error::Error impl.  -> (ok, detail)"""
+    found = set()
+    for d, _, fs in os.walk(os.path.join(crate, "src")):
+        if os.path.join(crate, "src", "verif") in d:
+            continue
+        for f in fs:
+            if not f.endswith(".rs"):
+                continue
+            p = os.path.join(d, f)
+            txt = open(p).read()
+            txt = re.split(r"#\[cfg\((?:all\(feature = \"std\", )?test\)?\)\]\s*mod \w+ \{", txt)[0]
+            for line in txt.splitlines():
+                t = line.strip()
+                if t.startswith("//"):
+                    continue
+                if ('feature = "std"' in t or "target_env" in t or "target_os" in t or "cfg(windows" in t or "target_arch" in t) and "recursion_limit" not in t and "verif" not in t:
+                    if f == "format.rs" and "test" in t:
+                        continue
+                    found.add((os.path.relpath(p, crate), t))
+    extra = found - STD_CFG_ALLOW
+    missing = STD_CFG_ALLOW - found
+    # the two fma bodies themselves
+    a = open(os.path.join(crate, "src", "arithmetic.rs")).read()
+    bodies = re.findall(r"fn fma\(x: f64, y: f64, z: f64\) -> f64 \{\s*([^}]*?)\s*\}", a)
+    return (not extra and not missing and len(bodies) == 2), {"unexpected": sorted(extra), "missing": sorted(missing), "fma_bodies": bodies}
+
+
 def load_known():
     p = os.path.join(VERIF, "known_findings.json")
     if os.path.exists(p):
@@ -296,11 +335,18 @@ def load_known():
 
 
 def known_match(known, prop, obname, clauses):
-    for k in known.get("known", []):
-        if k["property"] == prop and k["obligation"] == obname:
-            if not k.get("clause") or any(k["clause"] in c for c in clauses):
-                return k
-    return None
+    """-> (matched known entries, clauses not covered by any entry)"""
+    hits, uncovered = [], []
+    entries = [k for k in known.get("known", []) if k["property"] == prop and k["obligation"] == obname]
+    for c in clauses:
+        m = [k for k in entries if not k.get("clause") or k["clause"] in c]
+        if m:
+            for k in m:
+                if k not in hits:
+                    hits.append(k)
+        else:
+            uncovered.append(c)
+    return hits, uncovered
 
 
 def write_replay(prop, ob, payload):
@@ -347,7 +393,7 @@ def run_check(prop, tier, only=None, keep=False, jobs=None):
             # ---- solver obligations
             groups = {}
             for ob in obs:
-                if ob.get("native"):
+                if ob.get("native") or ob.get("scan"):
                     continue
                 groups.setdefault((ob.get("features", "default"), ob.get("checks", "nooverflow")), []).append(ob)
             results = {}
@@ -358,6 +404,18 @@ def run_check(prop, tier, only=None, keep=False, jobs=None):
                        "backend": ob.get("backend", "cbmc+kissat"), "stubs": stubs_of(ob["name"])}
                 if ob.get("bound"):
                     row["bound"] = ob["bound"]
+                if ob.get("scan"):
+                    ok, detail = scan_std_cfg(sc.crate)
+                    row["backend"] = "source inventory (runner)"
+                    row["seconds"] = 0.0
+                    row["detail"] = detail
+                    if ok:
+                        row["verdict"] = "ground-evaluated"
+                    else:
+                        row["verdict"] = "undecided"
+                        undecided.append((ob["name"], "inventory of std/target-dependent items changed: %s" % detail))
+                    rows.append(row)
+                    continue
                 if ob.get("native"):
                     r = native_run(sc, ob["name"], [])
                     row["backend"] = "native evaluation of the real code (ground)"
@@ -421,7 +479,7 @@ def run_check(prop, tier, only=None, keep=False, jobs=None):
         for n, d in undecided:
             log("UNDECIDED property=%s obligation=%s reason=%s" % (prop, n, d))
         return 2
-    if len(rows) != expected or n_dis + sum(1 for r in rows if r["verdict"] in ("ground-evaluated", "canary-refuted-as-expected", "refuted")) != expected:
+    if len(rows) != expected or n_dis + sum(1 for r in rows if r["verdict"] in ("ground-evaluated", "canary-refuted-as-expected", "refuted", "known-finding")) != expected:
         log("UNDECIDED property=%s obligation count mismatch" % prop)
         return 2
     return 0
@@ -452,11 +510,19 @@ def handle_refuted(sc, prop, ob, row, failed, known, violations, known_hits, raw
     if reproduced:
         payload["native_failed_clauses"] = native["failures"]
     row["reproduced_natively"] = reproduced
-    km = known_match(known, prop, ob["name"], clauses + (native["failures"] if reproduced else []))
-    if km:
+    all_clauses = list(dict.fromkeys(clauses + (native["failures"] if reproduced else [])))
+    hits, uncovered = known_match(known, prop, ob["name"], all_clauses)
+    for km in hits:
         known_hits.append("%s obligation=%s %s" % (km.get("what", ""), ob["name"], km.get("input", "")))
+    if hits and not uncovered:
         row["verdict"] = "known-finding"
         return
+    if hits:
+        payload["failed_clauses"] = uncovered
+        clauses = [c for c in clauses if c in uncovered] or uncovered
+        if reproduced:
+            native = dict(native, failures=[c for c in native["failures"] if c in uncovered] or uncovered)
+            payload["native_failed_clauses"] = native["failures"]
     path = write_replay(prop, ob, payload)
     row["replay"] = path
     if reproduced:
